@@ -170,6 +170,11 @@ def solvers(ctx, bz, rng, N):
         W0 = O.signed_loguniform(rng, 1e-2, 10, (N, nb))
         W1 = O.signed_loguniform(rng, 1e-2, 10, (N, nb))
         W0[rng.random(N) < 0.05] = 0
+        # boundary vectors that coincide (a closed lap through the same moving state), or share some entries exactly
+        same = rng.random(N) < 0.05
+        W1[same] = W0[same]
+        part = rng.random(N) < 0.05
+        W1[part, 0] = W0[part, 0]
         Tn = O.loguniform(rng, 0.005, 2e4, N)  # all durations T > 0: from milliseconds to hours
         (Pn, r0, r1), _ = ev(W0, W1, Tn)
         fin = np.isfinite(Pn).all(axis=(1, 2)) & np.isfinite(r0).all(axis=(1, 2)) & np.isfinite(r1).all(axis=(1, 2))
